@@ -14,6 +14,11 @@ import (
 // instance from the given odd prime factors p and q.
 // Returns ct.False if the inputs are invalid (not odd primes or equal).
 func NewOddPrimeFactors(p, q *numct.Nat) (factors *OddPrimeFactors, ok ct.Bool) {
+	// factors 0 and 1 (or missing ones) have no modulus p or p-1: the precomputations below would
+	// dereference nil
+	if p == nil || q == nil || (p.IsZero()|q.IsZero()|p.IsOne()|q.IsOne()) == ct.True {
+		return nil, ct.False
+	}
 	allOk := p.Equal(q).Not() & p.IsProbablyPrime() & q.IsProbablyPrime() & p.IsOdd() & q.IsOdd()
 
 	params, ok := crt.PrecomputePairExtended(p, q)
